@@ -1146,128 +1146,40 @@ func checkFixedWidth(c *core.Ctx, l *core.Ledger, rule string) {
 // constant). Anything else is reported as not extractable.
 func fixedWidthTable(c *core.Ctx) (got map[int64]int64, def int64, why string) {
 	fobj := c.LookupFunc("protocol/binary", "fixedWidth")
-	if fobj == nil {
+	f := c.SSAFunc(fobj)
+	if f == nil || len(f.Params) != 1 {
 		return nil, 0, "fixedWidth not found"
 	}
-	fd := c.Decl(fobj)
-	pkg := c.DeclPkg(fobj)
-	info := pkg.TypesInfo
+	// every value of the parameter's type (wire.Type is a one-byte integer)
+	var dom []int64
+	lo, hi := int64(-128), int64(127)
+	if b, ok := f.Params[0].Type().Underlying().(*types.Basic); ok && b.Kind() == types.Uint8 {
+		lo, hi = 0, 255
+	}
+	for k := lo; k <= hi; k++ {
+		dom = append(dom, k)
+	}
+	res, prob := c.FiniteTable(f, 0, dom)
+	if len(prob) > 0 {
+		var ks []int64
+		for k := range prob {
+			ks = append(ks, k)
+		}
+		sort.Slice(ks, func(i, j int) bool { return ks[i] < ks[j] })
+		return nil, 0, fmt.Sprintf("fixedWidth(%d): %s", ks[0], prob[ks[0]])
+	}
 	got = map[int64]int64{}
-	def = 1
-	constOf := func(e ast.Expr) (int64, bool) {
-		if tv, ok := info.Types[e]; ok && tv.Value != nil {
-			v, ok := constant.Int64Val(constant.ToInt(tv.Value))
-			return v, ok
+	// the default is the value for an arbitrary code outside the Thrift table
+	def = res[hi].I
+	for k, v := range res {
+		if v.Kind != core.CInt {
+			return nil, 0, "fixedWidth does not return an integer constant"
 		}
-		return 0, false
-	}
-	sws := core.Switches(info, fd.Body)
-	if len(sws) == 1 && !sws[0].IsType {
-		for _, cc := range sws[0].Clauses {
-			var ret int64
-			okRet := false
-			if len(cc.Body) == 1 {
-				if rs, ok := cc.Body[0].(*ast.ReturnStmt); ok && len(rs.Results) == 1 {
-					ret, okRet = constOf(rs.Results[0])
-				}
-			}
-			if !okRet {
-				return nil, 0, "a case of fixedWidth does not return a constant"
-			}
-			if cc.List == nil {
-				def = ret
-			}
-			for _, e := range cc.List {
-				if k, ok := constOf(e); ok {
-					got[k] = ret
-				}
-			}
-		}
-		return got, def, ""
-	}
-	if len(sws) == 0 {
-		// table form: the last statement returns T[param]
-		stmts := fd.Body.List
-		if len(stmts) == 0 {
-			return nil, 0, "fixedWidth has no body"
-		}
-		rs, ok := stmts[len(stmts)-1].(*ast.ReturnStmt)
-		if ok && len(rs.Results) == 1 {
-			if ie, ok := rs.Results[0].(*ast.IndexExpr); ok {
-				if id, ok := ie.X.(*ast.Ident); ok {
-					if v, ok := info.Uses[id].(*types.Var); ok && v.Parent() == pkg.Types.Scope() {
-						// earlier statements may only be guards returning a constant
-						for _, st := range stmts[:len(stmts)-1] {
-							ifs, ok := st.(*ast.IfStmt)
-							if !ok || ifs.Else != nil || len(ifs.Body.List) != 1 {
-								return nil, 0, "fixedWidth: statement before the table lookup is not a guard"
-							}
-							r2, ok := ifs.Body.List[0].(*ast.ReturnStmt)
-							if !ok || len(r2.Results) != 1 {
-								return nil, 0, "fixedWidth: guard does not return"
-							}
-							d, ok := constOf(r2.Results[0])
-							if !ok {
-								return nil, 0, "fixedWidth: guard does not return a constant"
-							}
-							def = d
-						}
-						// the table's literal
-						for _, f := range pkg.Syntax {
-							for _, dcl := range f.Decls {
-								gd, ok := dcl.(*ast.GenDecl)
-								if !ok {
-									continue
-								}
-								for _, sp := range gd.Specs {
-									vs, ok := sp.(*ast.ValueSpec)
-									if !ok {
-										continue
-									}
-									for i, nm := range vs.Names {
-										if info.Defs[nm] != v || i >= len(vs.Values) {
-											continue
-										}
-										cl, ok := vs.Values[i].(*ast.CompositeLit)
-										if !ok {
-											return nil, 0, "fixedWidth's table is not initialised by a literal"
-										}
-										if _, isArr := v.Type().Underlying().(*types.Array); isArr {
-											if len(stmts) == 1 {
-												def = 0 // unlisted entries of an array are zero; out-of-range indexes are the PANIC rule's business
-											}
-										}
-										next := int64(0)
-										for _, el := range cl.Elts {
-											if kv, ok := el.(*ast.KeyValueExpr); ok {
-												k, ok1 := constOf(kv.Key)
-												val, ok2 := constOf(kv.Value)
-												if !ok1 || !ok2 {
-													return nil, 0, "fixedWidth's table has a non-constant entry"
-												}
-												got[k] = val
-												next = k + 1
-											} else {
-												val, ok2 := constOf(el)
-												if !ok2 {
-													return nil, 0, "fixedWidth's table has a non-constant entry"
-												}
-												got[next] = val
-												next++
-											}
-										}
-										// the table must not be written elsewhere
-										return got, def, tableWrittenElsewhere(c, v)
-									}
-								}
-							}
-						}
-					}
-				}
-			}
+		if v.I != def {
+			got[k] = v.I
 		}
 	}
-	return nil, 0, "fixedWidth is neither a single value switch nor a lookup in a literal table: table cannot be extracted"
+	return got, def, ""
 }
 
 // tableWrittenElsewhere reports a store into the package-level variable v
